@@ -247,6 +247,23 @@ pub fn run(run: &Arc<Run>) {
     );
     run.set_exhaustive(false);
     let seed = run.cfg.seed;
+    {
+        // Default is a construction path too (never executed before round six): valid by construction, and the
+        // documented two-sided 95 %
+        let mut l = run.local();
+        l.eval();
+        l.count("Confidence::default judged");
+        match caught(|| stats_ci::Confidence::default()) {
+            Ok(c) => {
+                let lv = c.level();
+                if !(lv > 0.0 && lv < 1.0) || !c.is_two_sided() || c.is_one_sided() || lv != 0.95 || c != stats_ci::Confidence::new_two_sided(0.95) || c.flipped() != c {
+                    l.violation("Confidence::default|not-the-documented-two-sided-0.95".to_string(), "Confidence::default() is not the valid, two-sided 95% confidence its documentation states".to_string(), json!({"what": "default"}), json!({"observed": format!("{:?}", c)}));
+                }
+            }
+            Err(p) => l.violation(format!("Confidence::default|panic@{}", p.location), "Confidence::default() panics".to_string(), json!({"what": "default"}), json!({"panic": p.message})),
+        }
+        run.absorb(l);
+    }
     let mut levels = special_levels();
     levels.extend(level_grid(seed, 8));
     let jo = |i: u64, pool: &Vec<(usize, f64)>, l: &mut Local| {
